@@ -136,6 +136,45 @@ const kitchenYAML = `types:
     - name: ded
       type:
         namedType: __untyped_deduced_
+    - name: pres
+      type:
+        namedType: pres
+    - name: dfm
+      type:
+        map:
+          elementType:
+            scalar: string
+      default: {}
+    - name: dfl
+      type:
+        list:
+          elementType:
+            scalar: string
+          elementRelationship: atomic
+      default: ["x"]
+- name: pres
+  map:
+    fields:
+    - name: nn
+      type:
+        scalar: string
+    - name: tags
+      type:
+        list:
+          elementType:
+            scalar: string
+          elementRelationship: associative
+    - name: ports
+      type:
+        list:
+          elementType:
+            namedType: port
+          elementRelationship: associative
+          keys:
+          - port
+          - proto
+    elementType:
+      namedType: __untyped_deduced_
 - name: sub
   map:
     fields:
@@ -315,7 +354,7 @@ func schemaMenu() []*schemaDef {
 		return &schemaDef{id: id, yaml: y, parser: p, roots: roots}
 	}
 	schemaCache = []*schemaDef{
-		mk("kitchen", kitchenYAML, nameRef("root"), nameRef("sub"), nameRef("itemlist"),
+		mk("kitchen", kitchenYAML, nameRef("root"), nameRef("sub"), nameRef("pres"), nameRef("itemlist"),
 			overrideRef("itemlist", schema.Atomic), nameRef("item"), overrideRef("sub", schema.Atomic)),
 		mk("small", smallYAML, nameRef("root")),
 		mk("deduced", deducedYAML, nameRef("root"), nameRef("__untyped_deduced_")),
